@@ -468,7 +468,7 @@ PROPS = {
                    "record no hook run; registration is idempotent, FIFO, and unhooking keeps the others' order",
     ),
     "C10": dict(
-        theorems=[T + "goto_joinReset", T + "joinChoice_advances", T + "undo_choose", T + "goto_failed_keeps_position",
+        theorems=[T + "goto_joinReset", T + "joinChoice_advances", T + "undo_choose", T + "goto_failed_keeps_position", T + "goto_failed_keeps_join",
                   T + "renderFromJoinMarker_sec", T + "renderPassage_sec"],
         run=run_c10,
         rule="passages with 1-3 @join markers and mixes of join / ordinary / conditional / one-time choices, re-entered by "
